@@ -134,6 +134,7 @@ FunctorManager::Env FunctorManager::createEnv(Context& caller, unsigned id, cons
     _ctx->recursion(r + 1);
     _ctx->trace(caller.trace());
     _ctx->returnCondition(false);
+    _ctx->error(RuntimeError());
     /* a recycled context starts like a new one: local variables are unset
      * and symbols are back to their compiled type, so that a call never
      * depends on a previous call */
